@@ -45,11 +45,11 @@ PROPS = {
         "props": ["LachesisVerif.Props.C21"],
         "streams": ["dsign"],
         "claim": "Proof: SyncedToEmit permits emission iff peers != 0, P2P synced and all five stamps are >= threshold in the past on the unbounded "
-                 "time line (every int64 threshold except -2^63); otherwise error with 0 < wait <= 2^63-1, and for thresholds >= 0 wait = longest "
-                 "remaining time capped; DetectParallelInstance exact iff. Pre-fix wrap-around kept as a machine-checked negative witness. "
+                 "time line (every int64 threshold except -2^63); otherwise error with 0 < wait <= 2^63-1, and wait = longest remaining time capped for every threshold >= 0 (C21_synced_to_emit) and for every "
+                 "negative threshold > -2^63 whose stamps lie at most 2^63 ns ahead of now (C21_wait_any_threshold; the excluded corner differs by a few ns: C21_far_future_negative_threshold_witness); DetectParallelInstance exact iff. Pre-fix wrap-around kept as a machine-checked negative witness. "
                  "Correspondence on extreme-stamp products incl. error identity.",
         "note": "Trusted: Lean kernel, extractor, harness. time.Time.Sub modelled as saturating difference (stdlib contract, validated by the stream "
-                "around +-2^63 ns). Threshold -2^63 and the exact wait for negative thresholds with stamps > 292 years ahead are outside the theorem (partial there).",
+                "around +-2^63 ns). Threshold -2^63 is outside the theorems; for negative thresholds with a stamp > 292 years ahead the wait is proved positive and <= 2^63-1 but not equal to the capped remaining time (machine-checked witness that it is not).",
         "trusted": ["go/cmd/extract (remaining, apply, all comparisons)", "harness stream dsign", "contract: time.Time.Sub saturates"],
         "assumptions": ["instants are >= the zero Time and <= year 9999 in the stream (the theorem has no such bound)"],
     },
